@@ -42,6 +42,9 @@ struct SlowTraits2 : public momo::HashTraitsStd<uint64_t, TblHash, std::equal_to
 {
 	SlowTraits2() : momo::HashTraitsStd<uint64_t, TblHash, std::equal_to<uint64_t>, momo::HashBucketOpen2N2<3>>(size_t(1), TblHash{ gTab }) {}
 };
+// full-load variants: capacity = every slot, so insertions must probe up to the very last bucket
+struct FastTraits8Full : public FastTraits8 { size_t CalcCapacity(size_t bucketCount, size_t bucketMaxItemCount) const noexcept { return bucketCount * bucketMaxItemCount; } };
+struct SlowTraits2Full : public SlowTraits2 { size_t CalcCapacity(size_t bucketCount, size_t bucketMaxItemCount) const noexcept { return bucketCount * bucketMaxItemCount; } };
 template<class HT, size_t expectMax> static void runTbl(size_t n, const std::vector<std::pair<uint64_t, uint64_t>>& kh)
 {
 	typedef momo::HashSet<uint64_t, HT> HS;
@@ -53,7 +56,9 @@ template<class HT, size_t expectMax> static void runTbl(size_t n, const std::vec
 	size_t want = size_t(1) << n; bool ok = false;
 	for (size_t r = 1; r <= want * 8 && !ok; ++r) { HS probe{ HT() }; probe.Reserve(r); if (probe.GetBucketCount() == want) { hs.Reserve(r); ok = true; } if (probe.GetBucketCount() > want) break; }
 	if (!ok || hs.GetBucketCount() != want || kh.size() > hs.GetCapacity()) { puts("skip"); return; }
-	for (auto& p : kh) hs.Insert(p.first);
+	bool full = false;
+	try { for (auto& p : kh) hs.Insert(p.first); }
+	catch (const std::runtime_error&) { full = true; }
 	if (hs.GetBucketCount() != want || hs.mBuckets->GetNextBuckets() != nullptr) { puts("skip"); return; }
 	std::string out; size_t i = 0;
 	auto& params = hs.mBuckets->GetBucketParams();
@@ -70,8 +75,8 @@ template<class HT, size_t expectMax> static void runTbl(size_t n, const std::vec
 		}
 		++i;
 	}
-	bool all = true; for (auto& p : kh) all = all && hs.ContainsKey(p.first);
-	printf("%s found=%s full=false\n", out.c_str(), all ? "true" : "false");
+	bool all = true; for (auto& p : kh) all = all && (full || hs.ContainsKey(p.first));
+	printf("%s found=%s full=%s\n", out.c_str(), all ? "true" : "false", full ? "true" : "false");
 }
 
 int main()
@@ -107,7 +112,8 @@ int main()
 		{
 			std::string kind; ull n, capIgnored; is >> kind >> n >> capIgnored; std::vector<std::pair<uint64_t, uint64_t>> kh; std::string tok;
 			while (is >> tok) { auto c = tok.find(':'); kh.push_back({ std::stoull(tok.substr(0, c)), std::stoull(tok.substr(c + 1)) }); }
-			if (kind == "o2") runTbl<SlowTraits2, 3>(n, kh); else runTbl<FastTraits8, 7>(n, kh);
+			if (kind == "o2") runTbl<SlowTraits2, 3>(n, kh); else if (kind == "o8") runTbl<FastTraits8, 7>(n, kh);
+			else if (kind == "o2f") runTbl<SlowTraits2Full, 3>(n, kh); else runTbl<FastTraits8Full, 7>(n, kh);
 		}
 		else if (cmd == "cov")
 		{	// number of distinct buckets visited by the real probe sequence within 2^n probes
